@@ -937,6 +937,62 @@ theorem finish_disk_state (fl : Faults) (live1 : List Key) (a : Auth) (cand : Li
     cases fl.tombWrite <;> cases fl.stateWrite <;> rcases k with _ | _ | k <;>
       simp [applyWrites, applyWrite]
 
+/-- every material the loop revokes is the material of a staged fetched key. -/
+theorem foldl_procFetched_revoked (staged : List Key) (revOnly : Bool) (now : Nat) (ks : List Key) (s : Loop) :
+    ∀ x ∈ (ks.foldl (procFetched staged revOnly now) s).revoked,
+      x ∈ s.revoked ∨ ∃ k ∈ ks, staged.contains k = true ∧ k.mat = x := by
+  induction ks generalizing s with
+  | nil => intro x hx; exact Or.inl hx
+  | cons k rest ih =>
+    simp only [List.foldl_cons]
+    intro x hx
+    rcases ih _ x hx with h1 | ⟨k', hk', h2, h3⟩
+    · rcases procFetched_cases staged revOnly now s k with h | ⟨old, _, _, _, hc, _, h⟩ | ⟨_, _, _, h⟩
+      · rw [h] at h1; exact Or.inl h1
+      · rw [h] at h1
+        rcases List.mem_append.mp h1 with h4 | h4
+        · exact Or.inl h4
+        · simp only [List.mem_singleton] at h4
+          exact Or.inr ⟨k, by simp, hc, h4.symm⟩
+      · rw [h] at h1; exact Or.inl h1
+    · exact Or.inr ⟨k', List.mem_cons_of_mem _ hk', h2, h3⟩
+
+/-- everything `stageRevocationSelfSignatures` checked for a staged key. -/
+theorem staged_full (cur : List TA) (tomb : List Nat) (f : Fetch) (k : Key)
+    (h : (stage cur tomb f.signers (sortByTag (fetchedMap f.keys))).contains k = true) :
+    k ∈ f.keys ∧ k.revoke = true ∧ signedBy f.signers k = true ∧
+    ∃ old ∈ cur, isTrusted old.st = true ∧ sameKeyExceptRevoke old.key k = true := by
+  have hk : k ∈ stage cur tomb f.signers (sortByTag (fetchedMap f.keys)) := by simpa using h
+  unfold stage at hk
+  obtain ⟨h1, h2⟩ := List.mem_filter.mp hk
+  unfold stageOne at h2
+  simp only [Bool.and_eq_true] at h2
+  obtain ⟨⟨⟨hr, _⟩, _⟩, h3⟩ := h2
+  refine ⟨(mem_fetchedMap k _ ((mem_sortByTag k _).mp h1)).1, hr, ?_⟩
+  split at h3
+  · next old hold =>
+    simp only [Bool.and_eq_true] at h3
+    exact ⟨h3.2, old, (lookup_mem hold).1, h3.1.1, h3.1.2⟩
+  · cases h3
+
+theorem process_revoked (P : Params) (f : Fetch) (revOnly : Bool) (now : Nat) (cur : List TA) (tomb : List Nat) :
+    ∀ x ∈ (process P f revOnly now cur tomb).revoked,
+      ∃ k ∈ f.keys, k.revoke = true ∧ signedBy f.signers k = true ∧ k.mat = x ∧
+        ∃ old ∈ cur, isTrusted old.st = true ∧ sameKeyExceptRevoke old.key k = true := by
+  intro x hx
+  have hrev : (process P f revOnly now cur tomb).revoked =
+      ((sortByTag (fetchedMap f.keys)).foldl
+        (procFetched (stage cur tomb f.signers (sortByTag (fetchedMap f.keys))) revOnly now)
+        { cur := cur, tomb := tomb }).revoked := by
+    unfold process
+    simp only
+    split <;> rfl
+  rw [hrev] at hx
+  rcases foldl_procFetched_revoked _ revOnly now _ _ x hx with h | ⟨k, _, hc, hm⟩
+  · cases h
+  · obtain ⟨h1, h2, h3, old, h4, h5, h6⟩ := staged_full cur tomb f k hc
+    exact ⟨k, h1, h2, h3, hm, old, h4, h5, h6⟩
+
 /-! ## Specification vocabulary of `Props/C09.lean` and the lemmas about it
 
 `Barred`, `HistOK` (revocation records), `RevocationOf` (what a revocation-only
